@@ -262,6 +262,9 @@ def do_audit(pkg, everything):
 # ------------------------------------------------------------------ main
 def main(argv):
     args = json.loads(argv[0])
+    for m in args.get("hide", []):
+        # an optional third-party dependency that is not installed: import raises ImportError
+        sys.modules[m] = None
     install_monitors()
     out = {"args": args}
     stdout = sys.stdout
